@@ -53,6 +53,16 @@ type c08Case struct {
 	RExt      bool       `json:"rext"`
 	RUnknown  int        `json:"runknown"` // number of unknown capabilities
 	SplitCaps bool       `json:"split_caps"` // one optional parameter per capability
+	// an earlier session of the same neighbour with another OPEN: nothing of it may survive
+	Prev *c08Remote `json:"prev"`
+}
+
+type c08Remote struct {
+	RHold    int          `json:"rhold"`
+	RFams    []int        `json:"rfams"`
+	RAddPath [][]c08Tuple `json:"radd_path"`
+	RAS4     bool         `json:"ras4"`
+	RExt     bool         `json:"rext"`
 }
 
 var c08Families = []bgp.Family{bgp.RF_IPv4_UC, bgp.RF_IPv6_UC, bgp.RF_IPv4_VPN, bgp.RF_EVPN, bgp.RF_FS_IPv4_UC}
@@ -103,6 +113,26 @@ func drawC08(t *rapid.T) c08Case {
 			ts = append(ts, c08Tuple{Fam: rapid.IntRange(0, len(c08Families)-1).Draw(t, fmt.Sprintf("apf%d_%d", i, j)), Mode: rapid.IntRange(1, 3).Draw(t, fmt.Sprintf("apm%d_%d", i, j))})
 		}
 		c.RAddPath = append(c.RAddPath, ts)
+	}
+	if rapid.IntRange(0, 2).Draw(t, "prev") != 0 {
+		pr := &c08Remote{
+			RHold: rapid.SampledFrom([]int{0, 3, 9, 30, 180}).Draw(t, "p_rhold"),
+			RAS4:  c.PeerAS > 65535 || rapid.Bool().Draw(t, "p_ras4"),
+			RExt:  rapid.IntRange(0, 3).Draw(t, "p_rext") != 0,
+		}
+		n := rapid.IntRange(1, 5).Draw(t, "p_nrf")
+		for i := 0; i < n; i++ {
+			pr.RFams = append(pr.RFams, rapid.IntRange(0, len(c08Families)-1).Draw(t, fmt.Sprintf("p_rf%d", i)))
+		}
+		var ts []c08Tuple
+		nt := rapid.IntRange(0, 4).Draw(t, "p_nt")
+		for j := 0; j < nt; j++ {
+			ts = append(ts, c08Tuple{Fam: rapid.IntRange(0, len(c08Families)-1).Draw(t, fmt.Sprintf("p_apf%d", j)), Mode: rapid.IntRange(1, 3).Draw(t, fmt.Sprintf("p_apm%d", j))})
+		}
+		if len(ts) > 0 {
+			pr.RAddPath = [][]c08Tuple{ts}
+		}
+		c.Prev = pr
 	}
 	return c
 }
@@ -271,6 +301,25 @@ func runC08(t *testing.T) func(c c08Case, st *verifkit.Stats) *verifkit.Failure 
 			}
 			n.settle()
 			ref := c08Reference(&c)
+
+			// ---- an earlier session with a different OPEN ----
+			if c.Prev != nil {
+				pc := c
+				pc.RHold, pc.RFams, pc.NoMP, pc.RAddPath, pc.RAS4, pc.RExt, pc.RUnknown = c.Prev.RHold, c.Prev.RFams, false, c.Prev.RAddPath, c.Prev.RAS4, c.Prev.RExt, 0
+				pss := n.connect(p)
+				n.settle()
+				_ = pss.send(c08PeerOpen(&pc, p), nil)
+				n.settle()
+				_ = pss.send(bgp.NewBGPKeepAliveMessage(), nil)
+				n.settle()
+				if stt, _, _ := n.peerState(p.Addr); stt == api.PeerState_SESSION_STATE_ESTABLISHED {
+					st.Label("previous-session-established")
+				}
+				n.advance(time.Second)
+				pss.close()
+				n.settle()
+				n.advance(12 * time.Second) // idle hold time
+			}
 
 			// ---- the OPEN the server sends reflects the configuration ----
 			ss := n.connect(p)
